@@ -215,3 +215,82 @@ Theorem C09_mut_ref_forwards_every_item : map (fun e => (fw_name e, fw_cfg e, fw
 Proof. exact (@ReadSrc.mut_ref_forwards_every_item). Qed.
 Print Assumptions C09_mut_ref_forwards_every_item.
 
+From Coq Require Import String.
+From SJ Require Import Base.Bytes Base.Utf8 Gen.Tables Model.Num Model.ErrMsg Model.ErrAst Gen.ErrTables Proofs.ErrMsgProps.
+Require Import Lia ZifyBool ZifyNat ZifyN.
+From SJ Require Import Proofs.ErrSrc.
+Local Open Scope string_scope.
+Local Open Scope list_scope.
+Local Open Scope N_scope.
+Theorem C09_error_api_is_source : forall (ryu : N -> bytes) (clos : nat -> list xval -> res xval) (fuel : nat),
+  let run := run_err ryu clos ERR_PROG fuel in
+  (* enum ErrorCode / enum Category are Base/Bytes.v ecode / cat *)
+  ((forall c, assoc_s (code_name c) ERR_ENUM_ErrorCode = Some (code_arity c)) /\ List.length ERR_ENUM_ErrorCode = 25%nat /\
+   (forall k, assoc_s (cat_name k) ERR_ENUM_Category = Some 0%nat) /\ List.length ERR_ENUM_Category = 4%nat) /\
+  (* the arms of classify, as a table, are Gen/Tables.v category *)
+  ((forall c, assoc_s (code_name c) classify_table = Some (cat_name (category c))) /\ List.length classify_table = 25%nat) /\
+  (* classify, the predicates, line / column, io_error_kind, From<Error> for io::Error *)
+  (forall c m io line col, (4 <= fuel)%nat ->
+     let E := enc_error (enc_code c m io) line col in
+     run "Error::classify" [E] = Ok (enc_cat (category c), [E]) /\
+     run "Error::is_io" [E] = Ok (VBool (cat_eqb (category c) CatIo), [E]) /\
+     run "Error::is_syntax" [E] = Ok (VBool (cat_eqb (category c) CatSyntax), [E]) /\
+     run "Error::is_data" [E] = Ok (VBool (cat_eqb (category c) CatData), [E]) /\
+     run "Error::is_eof" [E] = Ok (VBool (cat_eqb (category c) CatEof), [E]) /\
+     run "Error::line" [E] = Ok (VUsize line, [E]) /\
+     run "Error::column" [E] = Ok (VUsize col, [E]) /\
+     (is_io_code c = false -> run "Error::io_error_kind" [E] = Ok (v_none, [E])) /\
+     (forall k p, is_io_code c = true -> io = VIoError k p -> run "Error::io_error_kind" [E] = Ok (v_some k, [E])) /\
+     run "io::Error::from" [E] = Ok (if is_io_code c then io else VIoError (VEnum "ErrorKind" (io_kind_of (category c)) []) E, [E])) /\
+  (* Error::syntax, Error::io *)
+  (forall code line col io, (1 <= fuel)%nat -> line < USIZE_LIM -> col < USIZE_LIM ->
+     run "Error::syntax" [code; VUsize line; VUsize col] = Ok (enc_error code line col, [code; VUsize line; VUsize col]) /\
+     run "Error::io" [io] = Ok (enc_error (VEnum "ErrorCode" "Io" [io]) 0 0, [io])) /\
+  (* Display: the message of every code; the ` at line L column C` suffix, omitted iff line = 0 (ErrMsg.display) *)
+  (forall c m k iot line col buf, (5 <= fuel)%nat ->
+     let code := enc_code c m (foreign_io k iot) in
+     let e := mkError (code_text c m iot) line col in
+     run "ErrorCode::fmt" [code; VFmt buf] = Ok (v_ok v_unit, [code; VFmt (buf ++ code_text c m iot)]) /\
+     run "ErrorImpl::fmt" [enc_impl code line col; VFmt buf] = Ok (v_ok v_unit, [enc_impl code line col; VFmt (buf ++ display e)]) /\
+     run "Error::fmt" [enc_error code line col; VFmt buf] = Ok (v_ok v_unit, [enc_error code line col; VFmt (buf ++ display e)])) /\
+  (* starts_with_digit, parse_line_col, make_error *)
+  (forall s, (2 <= fuel)%nat -> run "starts_with_digit" [VStr s] = Ok (VBool (starts_with_digit s), [VStr s])) /\
+  (forall msg, rust_string msg -> (List.length msg + 4 <= fuel)%nat ->
+     run "parse_line_col" [VStr msg] = enc_plc msg (parse_line_col_chk msg) /\
+     run "make_error" [VStr msg] = enc_made (make_error_chk msg) [VStr (match make_error_chk msg with Ok e => e_msg e | _ => [] end)] /\
+     (utf8_valid msg = true ->
+        run "parse_line_col" [VStr msg] = enc_plc msg (Ok (parse_line_col msg)) /\
+        run "make_error" [VStr msg] = Ok (enc_msg_error (make_error msg), [VStr (e_msg (make_error msg))]))) /\
+  (* de::Error::custom, ser::Error::custom, invalid_type, invalid_value *)
+  ((forall text v, v = VStr text \/ (exists ty, v = VOpaque ty text) -> rust_string text -> (List.length text + 5 <= fuel)%nat ->
+      run "de::Error::custom" [v] = enc_made (make_error_chk text) [v] /\
+      run "ser::Error::custom" [v] = enc_made (make_error_chk text) [v]) /\
+   (forall u et, let text := INVALID_TYPE ++ unexp_text ryu u ++ EXPECTED_S ++ et in
+      rust_string text -> (List.length text + 6 <= fuel)%nat ->
+      run "de::Error::invalid_type" [enc_unexp u; VOpaque "Expected" et] = enc_made (make_error_chk text) [enc_unexp u; VOpaque "Expected" et]) /\
+   (forall u et, let text := INVALID_VALUE ++ unexp_text ryu u ++ EXPECTED_S ++ et in
+      rust_string text -> (List.length text + 6 <= fuel)%nat ->
+      run "de::Error::invalid_value" [enc_unexp u; VOpaque "Expected" et] = enc_made (make_error_chk text) [enc_unexp u; VOpaque "Expected" et])) /\
+  (* Error::fix_position *)
+  (forall code line col id, (2 <= fuel)%nat ->
+     let E := enc_error code line col in
+     run "Error::fix_position" [E; VClosure id] =
+       if line =? 0
+       then match clos id [code] with Ok r => Ok (r, [E; VClosure id]) | Err c i => Err c i | OutOfFuel => OutOfFuel | Panic => Panic end
+       else Ok (E, [E; VClosure id])) /\
+  (forall m line col id (g : bytes -> error), (2 <= fuel)%nat ->
+     clos id [VEnum "ErrorCode" "Message" [VStr m]] = Ok (enc_msg_error (g m)) ->
+     run "Error::fix_position" [enc_msg_error (mkError m line col); VClosure id] =
+     Ok (enc_msg_error (fix_position (mkError m line col) g), [enc_msg_error (mkError m line col); VClosure id])) /\
+  (* the interpreter's usize::from_str is the model's *)
+  (forall s, parse_usize s = usize_from_str s).
+Proof. exact (@ErrSrc.error_api_is_translated_source). Qed.
+Print Assumptions C09_error_api_is_source.
+
+Theorem C09_classify_is_generated_category :
+  (forall c, assoc_s (code_name c) classify_table = Some (cat_name (category c))) /\
+  List.length classify_table = 25%nat /\ List.length classify_arms = 25%nat /\
+  fbody ERR_Error_classify = [SMatch (EField (EField (EVar "self") "err") "code") classify_arms].
+Proof. exact (@ErrSrc.classify_is_generated_category). Qed.
+Print Assumptions C09_classify_is_generated_category.
+
